@@ -65,7 +65,7 @@ func (tt *termTable) mk(t Term) *Term {
 		fmt.Fprintf(&sb, "%s@%d", t.A.key, t.N)
 	case "B":
 		fmt.Fprintf(&sb, "%s,%s,%s", t.S, t.A.key, t.B.key)
-	case "N", "LEN", "KIND", "ISNIL":
+	case "N", "LEN", "KIND", "ISNIL", "TYPEOF", "VALOF":
 		sb.WriteString(t.A.key)
 	case "MI", "TA", "TAOK":
 		fmt.Fprintf(&sb, "%s,%s", t.S, t.A.key)
@@ -73,6 +73,18 @@ func (tt *termTable) mk(t Term) *Term {
 		fmt.Fprintf(&sb, "%s,%s", t.S, t.A.key)
 	case "IA", "I":
 		fmt.Fprintf(&sb, "%s,%s", t.A.key, t.B.key)
+	case "AL":
+		sb.WriteString(t.A.key)
+		if t.B != nil {
+			sb.WriteByte(',')
+			sb.WriteString(t.B.key)
+		}
+	case "APP":
+		fmt.Fprintf(&sb, "%s@%d", t.S, t.N)
+		if t.A != nil {
+			sb.WriteByte(':')
+			sb.WriteString(t.A.key)
+		}
 	default:
 		panic("bad term kind " + t.K)
 	}
@@ -102,7 +114,7 @@ func (tt *termTable) mk(t Term) *Term {
 		add(t.B.vals)
 		t.eps = append(t.eps, t.B.eps...)
 	}
-	if t.K == "L" {
+	if t.K == "L" || t.K == "APP" {
 		t.eps = append(t.eps, t.N)
 	}
 	nt := t
@@ -192,7 +204,7 @@ func (t *Term) paramRooted() bool {
 	switch t.K {
 	case "P", "C", "G":
 		return true
-	case "V", "FV", "L":
+	case "V", "FV", "L", "APP":
 		return false
 	}
 	if t.A != nil && !t.A.paramRooted() {
@@ -214,6 +226,8 @@ func (t *Term) summaryRooted(allowLoads bool) bool {
 		return false
 	case "L":
 		return allowLoads && t.N == 0 && t.A.summaryRooted(allowLoads)
+	case "APP":
+		return allowLoads && t.N == 0 && (t.A == nil || t.A.summaryRooted(allowLoads))
 	}
 	if t.A != nil && !t.A.summaryRooted(allowLoads) {
 		return false
@@ -291,6 +305,40 @@ func (tt *termTable) abstractResults(t *Term, others []*Term) *Term {
 	return tt.mk(nt)
 }
 
+// replaceTerm rewrites occurrences of `from` inside t by `to`; nil when t
+// does not mention `from`.
+func (tt *termTable) replaceTerm(t, from, to *Term) *Term {
+	if t == from {
+		return to
+	}
+	if t.A == nil && t.B == nil {
+		return nil
+	}
+	var a, b *Term
+	changed := false
+	if t.A != nil {
+		if a = tt.replaceTerm(t.A, from, to); a != nil {
+			changed = true
+		} else {
+			a = t.A
+		}
+	}
+	if t.B != nil {
+		if b = tt.replaceTerm(t.B, from, to); b != nil {
+			changed = true
+		} else {
+			b = t.B
+		}
+	}
+	if !changed {
+		return nil
+	}
+	nt := *t
+	nt.A, nt.B = a, b
+	nt.vals, nt.eps, nt.key = nil, nil, ""
+	return tt.mk(nt)
+}
+
 // substFull also maps result symbols R(k) to the given terms and entry-epoch
 // loads L(a,0) to loads in the caller's epoch `epoch` (-1: not allowed).
 func (tt *termTable) substFull(t *Term, args, results []*Term, epoch int) *Term {
@@ -309,7 +357,7 @@ func (tt *termTable) substFull(t *Term, args, results []*Term, epoch int) *Term 
 		return t
 	case "V", "FV":
 		return nil
-	case "L":
+	case "L", "APP":
 		if epoch == -1 || t.N != 0 {
 			return nil
 		}
@@ -326,7 +374,7 @@ func (tt *termTable) substFull(t *Term, args, results []*Term, epoch int) *Term 
 		}
 	}
 	nt := *t
-	if t.K == "L" {
+	if t.K == "L" || t.K == "APP" {
 		nt.N = epoch
 	}
 	nt.A, nt.B = a, b
@@ -378,6 +426,27 @@ type State struct {
 	heap  map[string]heapCell     // store-to-load forwarding for heap cells (address term key -> stored value)
 	epoch int
 	dead  bool
+	sorted []Fact // cache of factList()
+}
+
+// factList returns the facts in a deterministic (key) order; every loop
+// whose outcome could depend on the order must use it instead of ranging
+// over the map.
+func (s *State) factList() []Fact {
+	if s.sorted != nil && len(s.sorted) == len(s.facts) {
+		return s.sorted
+	}
+	ks := make([]string, 0, len(s.facts))
+	for k := range s.facts {
+		ks = append(ks, k)
+	}
+	sort.Strings(ks)
+	out := make([]Fact, 0, len(ks))
+	for _, k := range ks {
+		out = append(out, s.facts[k])
+	}
+	s.sorted = out
+	return out
 }
 
 type heapCell struct {
@@ -430,6 +499,7 @@ func (s *State) add(kind string, t *Term, val bool) {
 		return
 	}
 	s.facts[k] = Fact{kind, t, val}
+	s.sorted = nil
 }
 
 func (s *State) get(kind string, t *Term) (val, known bool) {
@@ -485,6 +555,7 @@ func valueName(v ssa.Value) string {
 // dropMentioning removes every fact, binding and cell whose term mentions one
 // of the given values (used when a value is re-defined by loop re-entry).
 func (s *State) dropMentioning(vals map[ssa.Value]bool) {
+	s.sorted = nil
 	for k, f := range s.facts {
 		for _, v := range f.T.vals {
 			if vals[v] {
@@ -536,6 +607,7 @@ func (s *State) dropMentioning(vals map[ssa.Value]bool) {
 // dropEpochs removes facts and term overrides that mention a memory epoch
 // selected by pred (epochs generated inside a loop that is being re-entered).
 func (s *State) dropEpochs(pred func(int) bool) {
+	s.sorted = nil
 	has := func(t *Term) bool {
 		for _, ep := range t.eps {
 			if pred(ep) {
